@@ -3,6 +3,18 @@ claim("C18",
  "symbolic execution of go/ssa + SMT (z3 bit-vectors, cvc5 int fallback), all paths per harness, native replay of counterexamples",
  "DESIGN.md 6/C18")
 
+claim("C01",
+ "Bounded symbolic model checking of the real verifiers (Sample.Verify, Row.Verify, RangeNamespaceData.VerifyInclusion) together with the real nmt and celestia-app wrapper-tree code, over an ideal commitment model (SHA-256 and the Reed-Solomon codec are injective functions, axiomatised per call). The committed square has symbolic contents; the response is an ARBITRARY value of the container type (share bytes, proof start/end, 0..3 arbitrary proof nodes, axis, side, row count and row lengths). The solver shows: accepted implies the exposed shares are byte-for-byte the committed shares at exactly the requested cell / row / range, and the honest serving-side containers verify. Structural forgeries (re-sliced rows, shifted ranges, borrowed proofs, wrong axis/side) are points of that space; the re-sliced two-row range is one the tests never construct.",
+ "symbolic execution of go/ssa (repository + nmt + wrapper) over an Ackermannised ideal hash/codec model, SMT decides acceptance implies equality with the committed data",
+ "DESIGN.md 6/C01, 4.1",
+ "ODS width 2 (EDS 4x4); shares carry 8 symbolic payload bytes. Not covered: RowNamespaceData (see C02), byte-level protobuf mutations, the hash/erasure libraries themselves.")
+
+claim("C02",
+ "Bounded symbolic model checking of NamespaceData.Verify / RowNamespaceData.Verify / RowsWithNamespace and the real nmt VerifyNamespace code over the ideal commitment model: for sorted squares over namespaces A<B<C (symbolic contents), every requested namespace (present in one row, spanning rows, absent inside a row's range, absent outside all ranges) and an ARBITRARY response (0..2 rows, 0..2 shares each with symbolically selected namespace, inclusion/absence/no proof with arbitrary nodes and leaf hash), acceptance implies one entry per row whose range covers the namespace, and Flatten() equal to all committed shares of the namespace in block order - nothing withheld, reordered, duplicated or padded. The honest producer (RowNamespaceDataFromShares) is accepted and complete.",
+ "symbolic execution of go/ssa (repository + nmt + wrapper) over the Ackermannised ideal hash/codec model + SMT",
+ "DESIGN.md 6/C02, 4.1",
+ "ODS width 2. Not covered: the cached-node proof producer (share/ipld, eds/proofs_cache.go).")
+
 claim("C12",
  "Bounded symbolic model checking of the proof glue the node owns: blob Proof.equal on two arbitrary proofs (0..2 entries, nil entries, 0..2 nodes, symbolic ranges and bytes) answers nil exactly for structurally equal proofs and never panics; GetRangeResult.Verify on arbitrary results (missing proof, 0..3 data entries of 511..513 symbolic bytes) answers nil only when the shares handed out are byte-for-byte the proven data; data-root-tuple proofs for arbitrary 64-bit height/start/end/head pick leaf height-start among exactly end-start leaves whose encoding carries the height in the last 8 of 32 bytes for every 64-bit height. Library proof verification (nmt, merkle, cometbft) is an ideal verdict.",
  "symbolic execution of go/ssa + SMT over arbitrary proof/result values, ideal verdict stubs for library verification, native replay where no stub is involved",
